@@ -469,7 +469,7 @@ def _one_structure(rec, prop, it, meta, b, bundle, mode, rng, T, fdt):
             numextra = 10 * T.tol_inv * (amp_inv if amp_inv is not None else amp_fwd) * 10
             tl = tl + numextra
         cmp_ = ok & ~ill & np.isfinite(ref)
-        rc = make_recheck(bundle, b, xs, cs, T, rng, sign=+1, crit_flag=xcrit, numeric=(meta["fwd_numeric"] or meta["inv_numeric"]))
+        rc = make_recheck(bundle, b, xs, cs, T, rng, sign=+1, crit_flag=xcrit, numeric=(meta["fwd_numeric"] or meta["inv_numeric"]), rec=rec, n=n)
         _cmp_logdet(rec, "logdet.forward", ld, ref, tl, cmp_, xcrit, n, meta, it, mode, det, allow_tie=("J" in D), recheck=rc)
         rec.count("logdet_forward_compared", cmp_.sum())
         rec.count("logdet_ill_conditioned", (ok & ill).sum())
@@ -493,7 +493,7 @@ def _one_structure(rec, prop, it, meta, b, bundle, mode, rng, T, fdt):
             tli, illi = T.logdet(refi, n, nJr, nJri)
             tli = tli + numextra
             cmpi = ok & ~illi & np.isfinite(refi) & np.isfinite(nJr) & np.isfinite(nJri)
-            rc = make_recheck(bundle, b, D["xr"], cs, T, rng, sign=-1, crit_flag=xcrit, numeric=(meta["fwd_numeric"] or meta["inv_numeric"]))
+            rc = make_recheck(bundle, b, D["xr"], cs, T, rng, sign=-1, crit_flag=xcrit, numeric=(meta["fwd_numeric"] or meta["inv_numeric"]), rec=rec, n=n)
             _cmp_logdet(rec, "logdet.inverse", ldi, refi, tli, cmpi, xcrit, n, meta, it, mode, det, allow_tie=("Jr" in D), tie_sign=-1, recheck=rc)
             rec.count("logdet_inverse_compared", cmpi.sum())
 
@@ -603,7 +603,7 @@ def _one_structure(rec, prop, it, meta, b, bundle, mode, rng, T, fdt):
         if meta["multi_numeric"]:
             tli = tli + 10 * T.tol_inv * amp2 * 10
         cmpi = ok2 & ~illi & np.isfinite(refi)
-        rc = make_recheck(bundle, b, C["xp"], cs2, T, rng, sign=-1, crit_flag=ycrit, numeric=(meta["fwd_numeric"] or meta["inv_numeric"]))
+        rc = make_recheck(bundle, b, C["xp"], cs2, T, rng, sign=-1, crit_flag=ycrit, numeric=(meta["fwd_numeric"] or meta["inv_numeric"]), rec=rec, n=n)
         _cmp_logdet(rec, "logdet.inverse", ldi, refi, tli, cmpi, ycrit, n, meta, it, mode, det2, allow_tie=("J" in C), tie_sign=-1, recheck=rc)
         rec.count("logdet_inverse_compared", cmpi.sum())
         nt = cmpi & (np.abs(refi) > 1e-6)
@@ -676,7 +676,49 @@ def _cmp_logdet(rec, mech, ld, ref, tl, cmp_, crit_flag, n, meta, it, mode, det,
                       it, mode, det(i, log_det=ld[i], autodiff=ref[i]))
 
 
-def make_recheck(bundle, b, base_pts, base_conds, T, rng, sign=+1, n=1, allow_tie=True, crit_flag=None, numeric=False):
+_TANH_REC = {"on": False, "min": None, "installed": False}
+
+
+def tanh_saturation(b, pt, cond, which):
+    """Smallest 1 - t^2 over the values t that Tanh layers produce (transform) / receive (inverse) while the real object evaluates
+    `which` at `pt` - measured by a harness monitor on the real Tanh methods.  The float64 autodiff oracle computes a tanh layer's
+    derivative as 1 - t^2, which keeps only eps / (1 - t^2) relative accuracy once the layer saturates (the library's own
+    log-gradient formula does not suffer from this)."""
+    import jax
+    import jax.numpy as jnp
+    import flowjax.bijections as B
+
+    if not _TANH_REC["installed"]:
+        def cb(v):
+            v = np.asarray(v, dtype=np.float64)
+            if v.size:
+                m = float(np.min(1.0 - np.minimum(v * v, 1.0)))
+                _TANH_REC["min"] = m if _TANH_REC["min"] is None else min(_TANH_REC["min"], m)
+
+        for meth, on_output in (("transform", True), ("transform_and_log_det", True), ("inverse", False), ("inverse_and_log_det", False)):
+            orig = getattr(B.Tanh, meth)
+
+            def wrapped(self, x, condition=None, _orig=orig, _out=on_output):
+                res = _orig(self, x, condition)
+                if _TANH_REC["on"]:
+                    val = (res[0] if isinstance(res, tuple) else res) if _out else jnp.asarray(x)
+                    jax.debug.callback(cb, val)
+                return res
+
+            setattr(B.Tanh, meth, wrapped)
+        _TANH_REC["installed"] = True
+    _TANH_REC["on"], _TANH_REC["min"] = True, None
+    try:
+        getattr(b, which)(jnp.asarray(pt), None if cond is None else jnp.asarray(cond))
+        jax.effects_barrier()
+    except Exception:  # noqa: BLE001
+        pass
+    finally:
+        _TANH_REC["on"] = False
+    return _TANH_REC["min"]
+
+
+def make_recheck(bundle, b, base_pts, base_conds, T, rng, sign=+1, n=1, allow_tie=True, crit_flag=None, numeric=False, rec=None, which="transform"):
     """Second pass: oracle over float neighbours of base_pts[i] (joint nudges of 1..4096 ulp, 12 sign patterns;
     for numerically inverted structures also absolute nudges spanning the search tolerance)."""
     import jax.numpy as jnp
@@ -734,6 +776,15 @@ def make_recheck(bundle, b, base_pts, base_conds, T, rng, sign=+1, n=1, allow_ti
         if inside.any():
             return True, 0.0
         dist = np.minimum(np.abs(ldv - (lo + tie_sign * ks * BB.LOG2)), np.abs(ldv - (hi + tie_sign * ks * BB.LOG2))).min()
+        # third pass: a saturated tanh layer inside the structure - the oracle's own derivative 1 - t^2 is only accurate to
+        # eps / (1 - t^2) there, and float neighbours of the *outer* input need not move t at all
+        sat = tanh_saturation(b, base_pts[i], None if base_conds is None else base_conds[i], which)
+        if sat is not None and sat < 1e-6:
+            allow = 4 * n * T.eps / max(sat, 1e-300)
+            if dist <= allow:
+                if rec is not None:
+                    rec.count("logdet_accepted_oracle_noise_at_saturated_tanh")
+                return True, 0.0
         return False, float(dist)
 
     return recheck
